@@ -89,7 +89,9 @@ impl MetaProbe for GenericMetadata {
 pub fn meta_value(k: u8) -> toml::Value {
     match k {
         0 => toml::toml! { version = "1" }.into(),
-        _ => toml::toml! { legacy = 1 }.into(),
+        1 => toml::toml! { legacy = 1 }.into(),
+        // parses as V1 but carries a key V1 does not declare: keeping the layer must not lose it
+        _ => toml::toml! { version = "1" checksum = "abc" }.into(),
     }
 }
 fn replaced_value() -> toml::Value {
@@ -601,7 +603,7 @@ pub fn enabled_ops(snap: &Snapshot, live: &BTreeSet<usize>, all_shapes: bool) ->
             out.push(Op::Uncached { n, build, launch });
         }
         if live.contains(&n) {
-            for k in 0..2 {
+            for k in 0..3 {
                 out.push(Op::WMeta { n, k });
             }
             for k in 0..4 {
